@@ -682,6 +682,10 @@ def lab_run(ctx, s, prefix, cli_bin, runner_bin):
                    '--max-ttl', str(req['max_ttl']), '--timeout', str(req['timeout_ms'])]
             if req['tcp_method']:
                 cmd += ['--tcp-method', req['tcp_method']]
+            if req.get('want_v6'):
+                cmd.append('--ipv6')
+            if req.get('skip_private'):
+                cmd.append('--skip-private-hops')
             cmd.append(req['hostname'])
         else:
             cmd = ['ip', 'netns', 'exec', tracer, runner_bin, json.dumps(req)]
@@ -708,7 +712,7 @@ def lab_run(ctx, s, prefix, cli_bin, runner_bin):
         {'event': 'Begin', 'n': 0, 't': 0, 'idx': 0, 'twin': '', 'scen': s['id']},
         {'event': 'Params', 'n': 1, 't': 0, 'scen': s['id'], 'variant': 'lab', 'entry': 'lab', 'strict': False, 'min': req['min_ttl'], 'max': req['max_ttl'],
          'timeout_us': req['timeout_ms'] * 1000, 'delay_us': 20000, 'poll_us': 100000, 'target': req['hostname'], 'port': req['port'], 'cancel_us': 0, 'filter': False,
-         'queries': req['queries'], 'e2e': req['e2e'], 'cli': s['cli'], 'expect': s['expect']},
+         'queries': req['queries'], 'e2e': req['e2e'], 'cli': s['cli'], 'skip': bool(s.get('skip')), 'expect': s['expect']},
         {'event': 'Return', 'n': 2, 't': 0, 'scen': s['id'], 'ok': bool(out['ok']), 'panic': '', 'notsupported': 'SACK not supported' in out.get('err', ''),
          'errmsg': out.get('err', '')[:200], 'runs': out['runs'], 'rtts_us': out['rtts_us'], 'has_result': bool(out['ok'])},
     ]
